@@ -12,7 +12,8 @@ from core import TRUST_COMMON
 import fitlib
 from fitlib import q
 
-MODS = ["Nanite.Props.C13", "Nanite.Audit.C13", "Nanite.Props.C13Shape", "Nanite.Audit.C13Shape"]
+MODS = ["Nanite.Props.C13", "Nanite.Audit.C13", "Nanite.Props.C13Shape", "Nanite.Audit.C13Shape",
+        "Nanite.Props.C13Defaults", "Nanite.Audit.C13Defaults"]
 
 
 def harness_module(key, kind):
@@ -80,6 +81,60 @@ def gen_delta(rng):
     return kind, np.array(d, dtype=float)
 
 
+def bounds_oracle(ctx, key, md):
+    """"parameters in bounds" includes the declared limits themselves: every parameter other than contact point and
+    baseline is put on each of its finite limits in turn; the model must still return finite forces of the right shape
+    that equal the baseline off contact, follow a baseline change exactly and do not decrease with depth"""
+    p_def = md.get_parameter_defaults()
+    cp, b0 = 1.3e-7, 2e-10
+    for name in p_def:
+        if name in ("contact_point", "baseline"):
+            continue
+        for bound in (p_def[name].min, p_def[name].max):
+            if not np.isfinite(bound):
+                continue
+            p = copy.deepcopy(p_def)
+            p[name].set(value=bound)
+            p["contact_point"].set(value=cp)
+            p["baseline"].set(value=b0)
+            R = p["R"].value if "R" in p else 5e-6
+            x = np.linspace(cp + 1e-6, cp - min(R if R > 0 else 3e-6, 3e-6), 200)
+            tag = f"{key}:{name}={bound:g}"
+            rep = {"input": {"model": key, "parameter": name, "value": float(bound),
+                             "others": "defaults, contact point 1.3e-7, baseline 2e-10"}}
+            ctx.case({"oracle": "at-declared-bound", "model": key, "parameter": name, "value": float(bound)},
+                     nontrivial=f"b:{tag}", bucket=["oracle=at-declared-bound", "model=" + key])
+            with warnings.catch_warnings():
+                warnings.simplefilter("ignore")
+                try:
+                    f = md.model(p, x.copy())
+                    p3 = copy.deepcopy(p)
+                    p3["baseline"].set(value=b0 + 1e-9)
+                    f3 = md.model(p3, x.copy())
+                except BaseException as e:  # noqa
+                    ctx.violation(f"at-declared-bound:{tag}:raises-{type(e).__name__}",
+                                  f"{key}: model() raises {type(e).__name__} ({e}) with {name} on its declared limit "
+                                  f"{bound!r}", rep)
+                    continue
+            if np.shape(f) != x.shape or not np.all(np.isfinite(f)):
+                ctx.violation(f"at-declared-bound:{tag}:not-finite",
+                              f"{key}: with {name} on its declared limit {bound!r} model() returns "
+                              f"{int(np.sum(~np.isfinite(f)))} non-finite forces (shape {np.shape(f)})", rep)
+                continue
+            bad = []
+            if not np.all(f[x >= cp] == b0):
+                bad.append("force differs from the baseline off contact")
+            # (a force of 1e7 N - cone of half-angle 90 degrees - absorbs a nanonewton: tolerance of a few ulps of f)
+            if not np.allclose(f3 - f, 1e-9, rtol=1e-9, atol=1e-18 + 8 * np.finfo(float).eps * float(np.max(np.abs(f)))):
+                bad.append("adding to the baseline does not add the same to the force")
+            inc = f[x < cp]
+            if inc.size > 1 and np.any(np.diff(inc) < -1e-12 * max(float(np.max(np.abs(inc))), 1e-300)):
+                bad.append("force decreases with indentation depth")
+            if bad:
+                ctx.violation(f"at-declared-bound:{tag}:contract", f"{key}: with {name} on its declared limit {bound!r}: "
+                              + "; ".join(bad), {**rep, "observed": bad})
+
+
 def contract_oracle(ctx, key, md, rng, npts):
     """the structural contract on one registered model (numeric, implementation side)"""
     p = md.get_parameter_defaults()
@@ -117,6 +172,29 @@ def contract_oracle(ctx, key, md, rng, npts):
             ctx.violation(f"residual-after-write:{key}", f"{key}: residual of data = model is not zero after the caller "
                           "wrote into an earlier model() result", rep)
         f = f_keep
+        # "the contact-point weights": called without a weighting distance, the model's residual, the generic residual
+        # function and the weights function must mean the same default distance
+        from nanite.model import residuals as _res
+        g_ = np.random.default_rng(len(key) + npts)
+        data = f_keep + 1e-10 * g_.standard_normal(f_keep.size)
+        with warnings.catch_warnings():
+            warnings.simplefilter("ignore")
+            try:
+                r_def = np.asarray(md.residual(p, x.copy(), data.copy()))
+                w_def = _res.compute_contact_point_weights(cp=cp, delta=x.copy())
+                r_gen = np.asarray(_res.residual(p, x.copy(), data.copy(), model=md.model))
+            except BaseException as e:  # noqa
+                r_def = None
+                ctx.violation(f"default-weights-raise:{key}", f"{key}: residual without a weighting distance raises "
+                              f"{type(e).__name__}: {e}", rep)
+        if r_def is not None:
+            scale = float(np.max(np.abs(data - f_keep))) or 1.0
+            if not np.allclose(r_def, (data - f_keep) * w_def, rtol=1e-12, atol=1e-12 * scale):
+                ctx.violation(f"default-residual-weights:{key}", f"{key}: residual(params, delta, data) without a "
+                              "weighting distance is not (data - model) x compute_contact_point_weights(cp, delta)", rep)
+            elif not np.allclose(r_def, r_gen, rtol=1e-12, atol=1e-12 * scale):
+                ctx.violation(f"default-residual-generic:{key}", f"{key}: the model's residual and residuals.residual("
+                              "..., model=md.model) disagree when no weighting distance is given", rep)
         # no point in contact (contact point at or below the deepest sample): an array of the baseline, same shape
         for cp_out in (float(np.min(x)), float(np.min(x)) - 2e-7):
             p0 = copy.deepcopy(p)
@@ -194,11 +272,11 @@ def run(ctx):
                 "1-50) through harness models (running sum = order-sensitive, index-dependent, point-wise) "
                 "registered in the real registry vs the Lean wrapper; default residuals vs (data - model) x "
                 "weights; contract oracle on every registered model; non-trivial = distinct (model, abscissa)")
-    ctx.gen(["models"])
+    ctx.gen(["models", "modeldefaults"])
     ctx.build(MODS, clean=(ctx.tier == "thorough"))
     ctx.grep_audit()
     if ctx.tier == "thorough":
-        ctx.leanchecker(["Nanite.Props.C13", "Nanite.Props.C13Shape"])
+        ctx.leanchecker(["Nanite.Props.C13", "Nanite.Props.C13Shape", "Nanite.Props.C13Defaults"])
     from nanite import model
     rng = ctx.rng
     mods = {k: harness_module("verif_c13_" + k, k) for k in ("cumsum", "square", "index")}
@@ -287,6 +365,7 @@ def run(ctx):
             if key.startswith("verif_c13_"):
                 continue
             contract_oracle(ctx, key, model.models_available[key], rng, 400 if ctx.tier == "quick" else 20000)
+            bounds_oracle(ctx, key, model.models_available[key])
     finally:
         for k, m in mods.items():
             model.models_available.pop(m.model_key, None)
